@@ -232,6 +232,14 @@ class Backend:
                 self.esc.ctx.count("mdns_flaps_before_announcement")
             full = add_records(self.azc, hap, self.names[dev_id], 51826, good_txt(dev_id, upper=self.rng.random() < 0.5), ["10.0.0.5", "fe80::1", "fd00::5"])
             self.esc.call("mdns-browser", target._handle_service, self.azc.zeroconf, hap, full, self.rng.choice([ServiceStateChange.Added, ServiceStateChange.Added, ServiceStateChange.Updated]))
+            if self.rng.random() < 0.3:
+                # the accessory keeps changing its TXT record (a sensor bumping s#): Updated callbacks every 0.3 s for a few
+                # seconds. The announcement above is processed when ITS resolve delay is over - later callbacks do not push
+                # that moment back
+                loop = asyncio.get_running_loop()
+                for k in range(1, 12):
+                    loop.call_later(0.3 * k, self.esc.call, "mdns-browser", target._handle_service, self.azc.zeroconf, hap, full, ServiceStateChange.Updated)
+                self.esc.ctx.count("mdns_update_bursts_after_announcement")
 
 
 async def run_schedule(ctx, kind, pairing_mode, waiters, adverts, cancel, idx) -> None:
